@@ -350,9 +350,9 @@ partial def loop (h : IO.FS.Stream) (out : IO.FS.Stream) (st : DState) : IO Unit
       match st.forest with
       | none => out.putStrLn "ERR no-forest"; out.putStrLn "END"
       | some F =>
-          let t := F.tree realEnv 8 (comb.map String.toNat!)
-          if t.depth 5000 ≥ 3990 then out.putStrLn "ERR fuel" else
-          for l in dumpNode t.data.path.length t do out.putStrLn l
+          match F.tree? realEnv 8 (comb.map String.toNat!) with
+          | none => out.putStrLn "ERR fuel"
+          | some t => for l in dumpNode t.data.path.length t do out.putStrLn l
           out.putStrLn "END"
       loop h out st
   | "harvest" :: rest =>
